@@ -1,6 +1,6 @@
 (* C14 - Reading an RPU file returns exactly the RPUs written, or an error. *)
 From Coq Require Import List NArith ZArith Bool.
-From DV Require Import Outcome Bits Escape BitIO Rpu RpuFile RpuFileProofs.
+From DV Require Import Outcome Bits Escape BitIO Rpu RpuFile RpuFileProofs RpuFileDelim.
 Import ListNotations.
 Open Scope N_scope.
 
@@ -46,6 +46,25 @@ Theorem C14_example_read_back : forall (x : rpu) (cs : nat),
   (12 <= cs)%nat -> parse_rpu_file (fun _ => Ok x) cs (concat ex_entries) = Ok [x; x; x].
 Proof. exact ex_entries_read_back. Qed.
 
+(* the side condition holds of every file the tool writes: escaping (C13) leaves no byte-aligned
+   00 00 {00,01,02} inside a NAL, so 00 00 00 01 occurs only at the entry boundaries *)
+Theorem C14_written_file_well_delimited : forall payloads,
+  Forall (fun p => hd 1 p <> 0) payloads ->
+  well_delimited (map (fun nal => SC ++ skipn 2 nal) (map nal_of payloads)).
+Proof. exact written_file_well_delimited. Qed.
+
+(* WRITE THEN READ, for every payload list and chunk size: the file written from the escaped NALs
+   of any payloads (first byte non-zero: the 0x19 prefix) is read back as the parse of every
+   entry, in order *)
+Theorem C14_write_then_read : forall parse cs payloads rpus,
+  payloads <> [] -> Forall (fun p => hd 1 p <> 0) payloads -> (4 <= cs)%nat ->
+  let es := map (fun nal => SC ++ skipn 2 nal) (map nal_of payloads) in
+  (List.length (hd [] es) + 4 <= cs \/ total es < cs)%nat ->
+  map_ok parse es = Some rpus ->
+  parse_rpu_file parse cs (write_rpu_file (map nal_of payloads)) = Ok rpus.
+Proof. exact write_then_read. Qed.
+
 Print Assumptions C14_ok_means_all_parsed.
+Print Assumptions C14_write_then_read.
 Print Assumptions C14_chunk_invariance.
 Print Assumptions C14_example_read_back.
